@@ -84,6 +84,9 @@ func realName(n string) string {
 	if n == "uni" {
 		return "ünï 名前.txt"
 	}
+	if n == "long" { // close to the 255-byte limit of a file name, counted in bytes
+		return strings.Repeat("名", 83) + ".x"
+	}
 	return n
 }
 
